@@ -73,7 +73,7 @@ ORACLES = {
         'lsp::span_to_range': ['lsp::span_to_range'],
         'syntax::get_line_info': ['syntax::get_line_info'],
         'lsp::compile_error_to_diagnostic': ['lsp::diagnostic_range'],
-        '*': ['lsp::offset_to_position', 'lsp::round_trip', 'lsp::position_to_offset', 'lsp::monotone', 'lsp::span_to_range', 'syntax::get_line_info', 'lsp::diagnostic_range', 'lsp::server_ranges', 'incan::fmt_error_location', 'lsp::published_ranges', 'lsp::dependency_ranges', 'lsp::pipe_ranges'],
+        '*': ['lsp::offset_to_position', 'lsp::round_trip', 'lsp::position_to_offset', 'lsp::monotone', 'lsp::span_to_range', 'syntax::get_line_info', 'lsp::diagnostic_range', 'lsp::server_ranges', 'incan::fmt_error_location', 'lsp::published_ranges', 'lsp::dependency_ranges', 'lsp::pipe_ranges', 'incan::cli_check_location'],
     },
 }
 
@@ -296,7 +296,7 @@ def rerun(path, root):
         if 'error_case' in a:
             v = diffrun.check_error_program(exe, a['property'], a['error_case'], os.path.join(root, '.build', 'diffrun_replay'))
         else:
-            v = diffrun.check_program(exe, a['property'], a['seed'], a['functions'], os.path.join(root, '.build', 'diffrun_replay'))
+            v = diffrun.check_program(exe, a['property'], a['seed'], a['functions'], os.path.join(root, '.build', 'diffrun_replay'), modular=a.get('modular', False))
         print(json.dumps({k: v[k] for k in v if k != 'source'}, indent=1))
         if not v['ok']:
             print(v.get('source', '')[-3000:])
